@@ -349,6 +349,49 @@ func checkC06(res *Result) {
 	fns := reachFrom(p, E, "sideEffectActor.PostInbox", "sideEffectActor.AuthorizePostInbox")
 	addErrFlowObligations(res, p, E, "C06-R6", fns, true)
 	res.Functions = len(fns)
+	// R7: identity
+	res.Rule("C06-R7", "identity used by the checks: GetId yields the value's JSON-LD id whenever it has one; the href of a Link stands in only where the id property is nil (the origin check and Database.Update must speak about the same id)")
+	if fn := p.MustFunc(res, "C06-R7", "GetId"); fn != nil {
+		ff := computeFacts(fn)
+		g := flowOf(fn)
+		var idCall *ssa.Call
+		for _, ci := range callsIn(fn) {
+			if c, ok := ci.(*ssa.Call); ok && c.Common().IsInvoke() && c.Common().Method.Name() == "GetJSONLDId" && isParamNamed(c.Common().Value, fn.Params[0].Name()) {
+				idCall = c
+			}
+		}
+		res.check(idCall != nil, "C06-R7", fname(fn), p.pos(fn), "GetId consults the JSON-LD id of its argument", "no GetJSONLDId() call on the parameter")
+		nHref := 0
+		for _, r := range returnsIn(fn) {
+			if len(r.Results) != 2 {
+				continue
+			}
+			mayNil, _ := ff.errStatus(r, 1)
+			if !mayNil {
+				continue
+			}
+			v := ff.resolve(r, r.Results[0])
+			if !anyBackward(g, v, func(x ssa.Value) bool { return isCallNamed(x, "GetActivityStreamsHref") }) {
+				continue
+			}
+			nHref++
+			ok := idCall != nil && ff.has(r, idCall, fNIL, "")
+			res.check(ok, "C06-R7", fname(fn), p.pos(r), "href is returned as the id only where the value has no id property", "a Link that carries both id and href is identified by its href: the origin check then compares a different host from the id the stored object is keyed by")
+		}
+		res.Count("C06-R7 href returns of GetId", nHref, 1)
+	}
+	// R8: the verification steps can fail
+	res.Rule("C06-R8", "no verification step is dead: in the Accept verification closure, the origin check and the Undo actor check every return is feasible under the branch facts (a refusal whose condition can never hold — e.g. a flag that is not reset before the search — verifies nothing)")
+	for _, name := range []string{"FederatingWrappedCallbacks.accept$1", "mustHaveActivityOriginMatchObjects", "mustHaveActivityActorsMatchObjectActors", "sideEffectActor.AuthorizePostInbox"} {
+		fn := p.MustFunc(res, "C06-R8", name)
+		if fn == nil {
+			continue
+		}
+		ff := computeFacts(fn)
+		for _, r := range returnsIn(fn) {
+			res.check(ff.reachable(r), "C06-R8", fname(fn), p.pos(r), "this return can be reached", "under the facts established by the preceding tests this return is unreachable: the refusal it implements can never happen")
+		}
+	}
 	res.Assumptions = append(res.Assumptions, "value flow is an over-approximation (absence of a flow is exact, presence is necessary not sufficient)", "CFG paths over-approximate feasible paths")
 	res.Undecided = []string{"host-string semantics beyond the choice of the Host field (case, sub-domains, default ports)", "that the application's Blocked answers truthfully"}
 	res.Trusted = []string{"go/types, go/ssa (x/tools v0.29.0)", "e1_effects.go, e2_facts.go, e4_flow.go, e9_errflow.go"}
